@@ -53,6 +53,10 @@ func (calc *convexHullCalculator) getConvexHull() geom.T {
 		return geom.NewPointFlat(calc.layout, calc.inputPts)
 	}
 	if len(calc.inputPts)/calc.stride == 2 {
+		// two coincident points are a point, not a zero-length line
+		if internal.Equal(calc.inputPts, 0, calc.inputPts, calc.stride) {
+			return geom.NewPointFlat(calc.layout, calc.inputPts[:calc.stride])
+		}
 		return geom.NewLineStringFlat(calc.layout, calc.inputPts)
 	}
 
